@@ -1,19 +1,19 @@
 SPECIFICATION SpecNoLook
 CONSTANTS
-  Users = {"u2"}
-  Dirs = {"D1", "D3"}
-  Files = {"f1", "f3"}
+  Users = {"u1"}
+  Dirs = {"D3"}
+  Files = {"f3"}
   Variants = {"exact"}
   Modes = {"everyone", "friends"}
   UserSets = {{}}
-  BlockSets = {{"search"}}
-  PhraseSets <- PS_Big
-  InitShared = {{"D1", "D3"}}
-  FriendUsers = {}
-  InitSess = {TRUE}
-  MaxSess = 0
-  MaxCfg = 3
-  MaxReq = 0
+  BlockSets = {}
+  PhraseSets <- PS_None
+  InitShared = {{"D3"}}
+  FriendUsers = {"u1"}
+  InitSess = {TRUE, FALSE}
+  MaxSess = 2
+  MaxCfg = 2
+  MaxReq = 1
   MaxEnv = 0
   UploadSlots = 2
   LockByHolder = TRUE
